@@ -17,6 +17,17 @@ CHECKS = {
          "Decimal percentage text abstract; string formatting uninterpreted (A6). Products of symbolic reals abstracted to MUL with facts re-proved by z3 NRA each run. "
          "AbstractGrader.__call__'s invocation of apply_attempt_based_credit is covered under C01.",
     design="6/C17"),
+ 'C19': dict(
+    technique="contract-based deductive verification (pyvc: AST->z3 on the real source, 96-way case split on argument types, proved lemma on the index set, sum extensionality lemma by induction); bounded run-time contract checks as stand-in",
+    text="Proved for all limits (ints, integer-valued floats, +-inf), all cutoffs >= 1 and even_odd in {0,1,2}: SumGrader.perform_summation returns "
+         "the sum of the summand over {FIRST + k*STEP : k < COUNT} and raises SummationError exactly for inf..inf / -inf..-inf; lemma SumGrader.index_set "
+         "proves that this index set is the statement's {n : min <= n <= max, parity(n)} with infinite limits replaced by the cutoff (each index once, "
+         "regardless of the order of the limits). Bounded (not proved): the same contract evaluated by CPython on [-12,12]^2 and end-to-end SumGrader behaviour "
+         "(renaming, shifts, error classes, instructor variables, tolerance side).",
+    note="Assumed: the summand evaluator is a deterministic function of the index returning a number (A9/A15; vector/matrix summands outside the value model); "
+         "A1 floats as reals; complex numbers are outside the value model. evaluate_sum / gen_evaluations / input structuring (evaluator, closures mutating the scope, numpy) "
+         "are out of the verifier's reach: decided by the bounded tier only. IntegralGrader not covered (scipy absent).",
+    design="6/C19"),
 }
 
 NOT_YET = {}
